@@ -49,6 +49,9 @@ mod k {
         from_u64_apply = |r0: W, r1: W| { let m = M::from_u64(r0, r1); let (c, d) = m.apply_u128(r0 as u128, r1 as u128); (mat(m), u128w(c), u128w(d)) };
         from_u64_prefix_apply = |a: LS, b: LS| { let m = M::from_u64_prefix(a[1], b[1]); let (c, d) = m.apply_u128(w128(&a), w128(&b)); (mat(m), u128w(c), u128w(d)) };
         from_u128_prefix_apply = |a: LS, b: LS| { let m = M::from_u128_prefix(w128(&a), w128(&b)); let (c, d) = m.apply_u128(w128(&a), w128(&b)); (mat(m), u128w(c), u128w(d)) };
+        // matrices as [m0, m1, m2, m3, flag]: the product, and the product applied to a pair of u128
+        compose = |x: LS, y: LS| mat(M(x[0], x[1], x[2], x[3], x[4] != 0).compose(M(y[0], y[1], y[2], y[3], y[4] != 0)));
+        compose_apply = |x: LS, y: LS, a: LS, b: LS| { let m = M(x[0], x[1], x[2], x[3], x[4] != 0).compose(M(y[0], y[1], y[2], y[3], y[4] != 0)); let (c, d) = m.apply_u128(w128(&a), w128(&b)); (u128w(c), u128w(d)) };
         // C14
         div = |n: LS, d: LS| { alg::div(&mut n, &mut d); (n, d) };
         div_nxm = |n: LS, d: LS| { alg::div::div_nxm(&mut n, &mut d); (n, d) };
@@ -210,6 +213,30 @@ pub fn kmodel(_bits: usize, op: k::Op, args: &[V]) -> Expect {
             .nt(true)
         }
         from_u64_prefix_apply | from_u128_prefix_apply => lehmer_pred(bigv(&args[0]), bigv(&args[1]), 128).nt(true),
+        compose | compose_apply => {
+            let (x, y) = (args[0].limbs(), args[1].limbs());
+            let e = |i: usize, j: usize, k: usize, l: usize| x[i] as u128 * y[j] as u128 + x[k] as u128 * y[l] as u128;
+            let p = [e(0, 0, 1, 2), e(0, 1, 1, 3), e(2, 0, 3, 2), e(2, 1, 3, 3)];
+            if p.iter().any(|v| *v > u64::MAX as u128) {
+                // the entries of the product do not fit a word: outside the contract
+                return dont_care();
+            }
+            let flag = (x[4] != 0) ^ !(y[4] != 0);
+            if op == compose {
+                return is(V::T(vec![V::N(p[0]), V::N(p[1]), V::N(p[2]), V::N(p[3]), V::B(flag)])).nt(true);
+            }
+            // apply y, then x, modulo 2^128
+            let md = pow2(128);
+            let ap = |mm: &[u64], a: &BigUint, b: &BigUint| -> (BigUint, BigUint) {
+                let t = |k: usize, v: &BigUint| (BigUint::from(mm[k]) * v) % &md;
+                let sub = |p: BigUint, q: BigUint| (&md + p - q) % &md;
+                if mm[4] != 0 { (sub(t(0, a), t(1, b)), sub(t(3, b), t(2, a))) } else { (sub(t(1, b), t(0, a)), sub(t(2, a), t(3, b))) }
+            };
+            let (a, b) = (bigv(&args[2]), bigv(&args[3]));
+            let (c1, d1) = ap(y, &a, &b);
+            let (c2, d2) = ap(x, &c1, &d1);
+            is(V::T(vec![un(&c2, 2), un(&d2, 2)])).nt(true)
+        }
         div | div_nxm | div_nxm_normalized => {
             let (n, d) = (bigv(&args[0]), bigv(&args[1]));
             let (nl, dl) = (args[0].limbs().len(), args[1].limbs().len());
@@ -547,7 +574,29 @@ fn qseq_dfs(l: &mut Local, bits: usize, lim: &BigUint, a: &BigUint, b: &BigUint,
     }
 }
 
+fn compose_universe(r: &Runner) {
+    // all 512 matrices with entries from {0, 1, 3, 2^32-1} and both sign patterns: every ordered pair
+    let al = [0u64, 1, 3, (1 << 32) - 1];
+    let mut ms: Vec<Limbs> = vec![];
+    for c in 0..256usize {
+        for f in 0..2u64 {
+            ms.push(vec![al[c & 3], al[(c >> 2) & 3], al[(c >> 4) & 3], al[(c >> 6) & 3], f]);
+        }
+    }
+    let pts: Vec<(Limbs, Limbs)> = vec![(vec![5, 9], vec![3, 2]), (vec![u64::MAX, 1 << 63], vec![0x9E37_79B9_7F4A_7C15, 7]), (vec![0, 1], vec![1, 0])];
+    r.universe("LehmerMatrix::compose: all ordered pairs of 512 matrices (entries {0,1,3,2^32-1} x sign pattern), product and product applied to 3 pairs", 128, ms.len(), |i, l| {
+        for y in &ms {
+            l.states(1);
+            k::exec(l, 128, k::Op::compose, &[vu(&ms[i]), vu(y)]);
+            for (a, b) in &pts {
+                k::exec(l, 128, k::Op::compose_apply, &[vu(&ms[i]), vu(y), vu(a), vu(b)]);
+            }
+        }
+    });
+}
+
 fn c12(r: &Runner) {
+    compose_universe(r);
     r.set_rule("S(B)^2 for B <= 8 (10 thorough); all pairs of the wide universe at edge widths; a = b, a = b +- 1; and the QUOTIENT-SEQUENCE universe: the tree of inverse Euclid steps (a,b) -> (q*a+b, a) from seeds (g,0), g in {1,2,2^20,15015,2^61-1}, q in {1,2,3,2^32-1,2^32,2^63,2^64-1}, explored deviation-bounded (q = 1, the Fibonacci path, is free; any other quotient costs 1): EVERY sequence with at most D deviations is followed until the pair no longer fits the width and every node is a checked pair (gcd, lcm, gcd_extended in both argument orders, the Lehmer matrix of the pair and the word-level prefix matrices of its leading 128 bits). from_u64 on all pairs < 2^10 and on B64^2. non-trivial: both operands non-zero and different");
     for bits in 0..=if r.is_thorough() { 10usize } else { 8 } {
         let uv = small_all(bits);
